@@ -23,7 +23,7 @@
    command is TaskCmd.v's (property C02).
    Concurrency is a schedule: a list of [action]s; every theorem of props/C03.v quantifies over all
    of them.  Definitions only; lemmas live in proofs/Watcher_proofs.v. *)
-From Verif Require Import Common RoleTree TaskCmd Gen_LeafHandover Gen_FailureLabel.
+From Verif Require Import Common RoleTree TaskCmd Gen_LeafHandover Gen_FailureLabel Gen_OwnerRouting.
 Open Scope N_scope.
 
 Definition path := list nat.
@@ -285,13 +285,24 @@ Record flabel := mkFL { fl_state : N; fl_reason : N; fl_source : N; fl_route : N
 Definition report_fault (l : flabel) (owned_locked : bool) (v : nat) : fault :=
   if memN (fl_state l) error_case_states && owned_locked then FDead [v] else FDead [].
 
-(* the guard of `go m.updateTaskState(id, "ERROR")` mentions nothing of the status (no reason, no
-   source), nothing else branches around it, the status case has no early exit before it, and the
-   case list is the four terminal failure states *)
+(* read semantically from handleMessage and its helpers (translator failurelabel, on symwalk): the
+   states that put an owned, locked task in ERROR are the four terminal failure states, no condition
+   on the label of the status (reason, optional fields, anything else taken from it) changes the
+   decision, and a task that is not in the roster is never put in ERROR *)
 Definition failure_label_irrelevant : bool :=
   list_eqb N.eqb error_case_states [1; 2; 3; 7] &&
-  N.leb 1 error_guard_ifs && N.eqb error_guard_foreign_idents 0 &&
-  N.eqb error_other_branching 0 && N.eqb error_early_exits 0.
+  N.eqb error_label_dependence 0 && error_requires_roster.
+
+(* A fault of the model is addressed to a task position of THE environment: the implementation must
+   route every failure report to the environment that owns the task now, whatever the message
+   carries (a task claimed from an earlier environment - reuseUnlockedTasks - still stamps its
+   status and device-event labels with the environment that launched it).  Mesos status and
+   executor / agent loss go through the roster entry and its parent role; the device event handler
+   looks the environment up by id: that the id is the rostered task's current parent and never
+   taken from the message is read from the source on every run (translator ownerrouting). *)
+Definition routed_by_owner : bool :=
+  N.leb 1 devent_env_lookups_via_task && N.eqb devent_env_lookups_via_message 0 &&
+  N.eqb devent_env_lookups_other 0.
 
 Definition fault_victims (f : fault) : list nat :=
   match f with FDead vs => vs | FInternal v => [v] end.
